@@ -6,22 +6,21 @@
 * bare_reference()   the same driver script and parent script on the bare generator (C20's reference)
 * ProgGen            random plan programs from a small grammar, emitted as Python source and exec'ed, so they are
                      real generators (yield, yield from, try/except/finally with yields, raise, return, loops)
-* record_*()         random driver scripts on wrapped programs, interface events logged for TLC trace validation
+* program_trace() / insert_trace() / user_trace()
+                     random driver scripts on wrapped programs (identity processor / random inserting processor / the
+                     real baseline, monitor_during and relative_set wrappers); interface events logged for TLC
 * tlc_histories() / validate()   TLC runs (exhaustive + history dump; batch trace validation)
 
 Events are dicts {k, g, op, a}: see spec/gen/PlanMutatorTrace.tla.
 """
 from __future__ import annotations
 
-import json
 import random
 import re
-import textwrap
 
 from harness.tlc import SPEC, run_tlc, write_cfg
 
 SD = SPEC / "gen"
-EV_KEYS = ("k", "g", "op", "a")
 
 
 # --------------------------------------------------------------------------------------------------------------
@@ -312,6 +311,12 @@ def first_diff(exp, obs):
     return None
 
 
+def digest(obj):
+    """compact key for ctx.case (distinctness of a case = its full content)"""
+    import hashlib
+    return hashlib.blake2b(repr(obj).encode(), digest_size=12).hexdigest()
+
+
 def shape(h):
     """signature of a history: the sequence of (kind, generator, operation) without labels"""
     return " ".join(f"{e[0][0] if e[0] != 'iret' else 'r'}{e[1]}{e[2][:2]}" for e in h)
@@ -356,25 +361,26 @@ def detect_variant():
     return ("T" if "t" in seen else "F") + ("T" if "host-exc" in seen else "F")
 
 
-_RE_REC = re.compile(r'<<\s*"HIST",\s*"(\w+)",\s*"(\w+)",\s*"(\w+)",\s*(<<.*?>>),\s*(\{[^}]*\}),\s*(TRUE|FALSE)\s*>>', re.S)
-_RE_EV = re.compile(r'<<\s*"(\w+)",\s*(\d+),\s*"(\w+)",\s*"([^"]*)",\s*(\d)\s*>>')
+_RE_HEAD = re.compile(r'\s*"(\w+)",\s*"(\w+)",\s*"(\w+)",')
+_RE_EV = re.compile(r'<<"(\w+)", (\d+), "(\w+)", "([^"]*)", (\d)>>')
+_RE_TAIL = re.compile(r'>>,\s*(\{[^}]*\}),\s*(TRUE|FALSE)\s*>>')
 
 
 def parse_hist_dump(stdout):
-    """records printed by the DumpHist constraint: <<"HIST", impl, proc, variant, hist, bad, stale>> (TLC value syntax)"""
+    """records printed by the DumpHist constraint: <<"HIST", impl, proc, variant, hist, bad, stale>> (TLC value syntax,
+    pretty-printed over several lines)"""
     out = []
-    parts = re.split(r'(?=<<\s*"HIST",)', stdout)
+    parts = stdout.split('<< "HIST",')
     for part in parts[1:]:
-        m = _RE_REC.match(part)
-        if not m:
-            raise RuntimeError("unparsable history record in TLC output: " + part[:300])
-        body = m.group(4)
-        evs = [[k, int(g), op, a, int(c)] for k, g, op, a, c in _RE_EV.findall(body)]
-        # integrity: the events account for the whole text of the sequence
-        if len(re.sub(r'[\s<>,]', '', _RE_EV.sub('', body))) != 0:
-            raise RuntimeError("garbled history in TLC output: " + body[:300])
-        out.append({"impl": m.group(1), "proc": m.group(2), "variant": m.group(3), "h": evs,
-                    "bad": re.findall(r'"(\w+)"', m.group(5)), "stale": m.group(6) == "TRUE"})
+        hd = _RE_HEAD.match(part)
+        evs = _RE_EV.findall(part)
+        tl = _RE_TAIL.search(part, hd.end() if hd else 0)
+        # integrity: every event tuple of the record was recognised (guards against interleaved / wrapped output)
+        if not hd or not tl or part.count('<<"', 0, tl.end()) != len(evs):
+            raise RuntimeError("unparsable history record in TLC output: " + part[:400])
+        out.append({"impl": hd.group(1), "proc": hd.group(2), "variant": hd.group(3),
+                    "h": [[k, int(g), op, a, int(c)] for k, g, op, a, c in evs],
+                    "bad": re.findall(r'"(\w+)"', tl.group(1)), "stale": tl.group(2) == "TRUE"})
     return out
 
 
@@ -718,5 +724,25 @@ def trace_sig(t, upto):
     return "|".join(f"{e['k']}:{e['g']}:{e['op']}" for e in win)
 
 
-def dedent(s):
-    return textwrap.dedent(s)
+def replay_file(ctx, obj):
+    """./check Cxx --replay FILE: run the recorded history / trace again on the implementation"""
+    import json
+    if "history" in obj:
+        rec = obj["history"]
+        _, _, _, singles = parse_history(rec["h"])
+        exp = expected_events(rec["h"], singles)
+        obs, env = replay_history(rec)
+        d = first_diff(exp, obs)
+        print("specified :", json.dumps(exp))
+        print("observed  :", json.dumps(obs))
+        if rec.get("bad"):
+            print("clauses violated on this behaviour (TLC monitors):", rec["bad"], "stale =", rec.get("stale"))
+        print("REPRODUCED: differs at event %d: expected %s, implementation %s" % d if d else "implementation follows the specified behaviour")
+        return 1 if d or rec.get("bad") else 0
+    if "trace" in obj and obj["trace"]:
+        v, tags = validate(ctx, [obj["trace"]], "replay")
+        print("program(s):", obj.get("program") or obj.get("programs"))
+        print("trace rejected at event", v.rejected.get(0) if v.rejected else None, "invariant", v.invariant, "clauses", tags.get(0))
+        return 1 if (v.rejected or v.invariant or tags) else 0
+    print(json.dumps(obj, indent=1)[:4000])
+    return 0
